@@ -9,9 +9,9 @@ import re
 import common as C
 
 PROPERTIES = ["C04", "C05"]
-PROPS = ["Nstd.Life.Props"]
+PROPS_BY = {"C04": ["Nstd.Life.Props"], "C05": ["Nstd.Life.PropsStable"]}
 DRIVER = "drv_life"
-LEAN_TARGETS = PROPS + [DRIVER]
+LEAN_TARGETS = ["Nstd.Life.Props", "Nstd.Life.PropsStable", DRIVER]
 
 _COMMON_NOTE = ("Trusted: Lean kernel + the three standard axioms; the hand translation of the eight container headers into the slot-level "
                 "model Nstd/Life/Model.lean (validated on every run by the correspondence: identical op lines on the real headers and on "
@@ -595,7 +595,7 @@ def check(ctx):
         "object locations are canonicalised as (block serial, slot index, field) / sentinel / caller temporary; raw addresses are never compared",
         "AVL shape and hash chains are not part of the model (iteration order and lookup by payload are); MultiMap::remove(key) / insert(hint), List::sort are not driven",
     ]
-    proof_ok = C.proof_stage(ctx, PROPS, [DRIVER], leanchecker=(ctx.tier == "thorough"))
+    proof_ok = C.proof_stage(ctx, PROPS_BY[ctx.prop], [DRIVER], leanchecker=(ctx.tier == "thorough"))
     harness = C.build_harness(ctx, "life_" + ctx.prop, sources(), extra_flags=["-Wno-invalid-offsetof"])
     if harness is None or not C.driver_path(DRIVER).exists():
         return
